@@ -22,6 +22,11 @@ def classes(ctx, kind=KIND):
                     for buf in (False, True):
                         if ctx.thorough is False and s_ == S and d < S - 1 and buf: continue
                         out.append((kind, s_, d, ncols, dstmode, buf))
+    # wider column counts on small transforms: column blocks with a remainder of two or more columns need ncols >= 5
+    for (s_, d) in ((1, 1), (2, 2), (2, 1)):
+        for ncols in ((5, 7) if not ctx.thorough else (5, 6, 7, 8)):
+            for dstmode in ('other', 'same'):
+                for buf in (False, True): out.append((kind, s_, d, ncols, dstmode, buf))
     return out
 def obligations(ctx, kind=KIND, prop='C03'):
     obs = []
